@@ -178,9 +178,50 @@ def dose_signature(td, ird, recs, start_cols):
     return None
 
 
+def kij_signature(td, ird):
+    """ADVAN5/7: a $PK variable named like a rate constant (Kij / KiTj) that is not a flow of the model."""
+    import re
+
+    if td.rm.advan not in ("ADVAN5", "ADVAN7") or ird.cs is None:
+        return set()
+    rates = set()
+    for n in ird.cnames:
+        comp = ird.cs.find_compartment(n)
+        for dest, rate in ird.cs.get_compartment_outflows(comp):
+            rates |= {str(x) for x in rate.free_symbols}
+    return {p for p in td.pk_names if re.fullmatch(r"K\d+(T\d+)?", p) and p not in rates}
+
+
+def lagbio_signature(td, ird):
+    """User-written Fn/ALAGn kept under its old number although its compartment was renumbered."""
+    import re
+
+    if ird.cs is None:
+        return False
+    for p in td.pk_names:
+        m = re.fullmatch(r"(F|ALAG)(\d+)", p)
+        if not m:
+            continue
+        n = int(m.group(2))
+        if not 1 <= n <= len(td.names) or td.names[n - 1] not in ird.cnames:
+            continue
+        here = ird.cs.find_compartment(td.names[n - 1])
+        attr = "bioavailability" if m.group(1) == "F" else "lag_time"
+        if p in {str(x) for x in getattr(here, attr).free_symbols}:
+            continue
+        # the symbol sits on another compartment of the model, or on none at all (the model dropped it while the
+        # code still assigns the reserved name)
+        return True
+    return False
+
+
 def classify(mm, start_cols, rng, K):
-    """Attribute a mismatch to listed mechanisms: structural signatures + delta check (the comparison must pass
-    once exactly the signatures' aspects are neutralised).  Returns the primary key or None (= unclassified)."""
+    """Attribute a mismatch to listed mechanisms.  Each mechanism has a structural *signature* on (text, model) and
+    a *repair* that neutralises exactly that aspect of the comparison; the mismatch is attributed iff the
+    comparison passes once the repairs of all present signatures are applied (delta check).  Returns the primary
+    key (fixed priority order) or None (= unclassified, reported as a violation)."""
+    import copy
+
     from vp import denote
     from vp.farm import Case
 
@@ -190,32 +231,105 @@ def classify(mm, start_cols, rng, K):
     what = mm.what
     if "number of compartments" in what and "METABOLITE" in ird.cnames and "METABOLITE" not in td.names:
         return "C02/metabolite-code-stale"
-    if "block" in what and "fixedness: text False, model True" in what:
-        # delta: everything else agrees when fixedness of blocks is not compared
+    if stage == "written-text-vs-reread-model" and td.rm.des and "d/dt of compartment" in what:
+        # delta: the very same written text agrees with the in-memory model (judged just before) - so it is
+        # pharmpy's reading of its own $DES output that is not equivalent
+        return "C02/reread-des-not-equivalent"
+    code = _code_of(td)
+    import re as _re
+
+    if any(".AND." in l.upper() and ".OR." in l.upper() for l in code.splitlines()):
+        from vp import nmtran_ref as R
+
+        R.OR_TIGHT = True
         try:
+            td_or = denote.TextDen("\n".join("$" + n + " " + c if n not in ("PROBLEM",) else "$PROBLEM x\n" for n, c in td.rm.records))
             sc = Case()
-            denote.compare_parameters(td, ird, sc, skip_block_fix=True)
-            j = denote.compare_dynamic(td, ird, recs, rng, K, sc, dose_info=denote.dose_info_from_records(td, recs))
-            return "C02/block-fix-lost-on-eta-removal" if j else None
-        except denote.Mismatch:
-            return None
+            di = denote.dose_info_from_records(td_or, recs)
+            if denote.compare_dynamic(td_or, ird, recs, rng, K, sc, dose_info=di):
+                return "C02/boolean-or-inside-and-printed-flat"
+        except Exception:
+            pass
+        finally:
+            R.OR_TIGHT = False
+    td = copy.copy(td)
+    td.rm = copy.copy(td.rm)
+    mechs = []
+    kw = {}
+    skip_fix = False
     try:
+        if "block" in what and "fixedness: text False, model True" in what:
+            mechs.append("C02/block-fix-lost-on-eta-removal")
+            skip_fix = True
+        extra_k = kij_signature(td, ird)
+        if extra_k:
+            mechs.append("C02/leftover-kij-variable-advan5")
+            td.rm.ignore_k = extra_k
         fsig = f_link_signature(td, ird)
+        if fsig:
+            mechs.append(fsig)
+            kw["f_from_ir"] = True
         dsig = dose_signature(td, ird, recs, start_cols)
+        if not dsig and (start_cols & {"CMT", "RATE"}) and any(
+                w in what for w in ("doses into compartment", "rate parameter R", "duration parameter D",
+                                    "model has doses into")):
+            dsig = "C02/preexisting-cmt-rate-columns"
+        if dsig:
+            mechs.append(dsig)
+            kw["skip_events"] = True
+        elif lagbio_signature(td, ird):
+            mechs.append("C02/user-fn-alag-not-renumbered")
+            kw["skip_events"] = True
+        raw_eta = bool(td.rm.abbr) and any("ETA_" in n for n in ird.eta_names) and "ETA(" in _code_of(td)
+        if raw_eta:
+            # raw ETA(k) next to $ABBR REPLACE names: read ETA(k) as the model's ETA_k
+            td.eta_name_env = list(ird.eta_names)
+        if _error_reads_amounts(td) and ird.cnames != td.names:
+            td.err_amount_names = list(ird.cnames)
     except Exception:
         return None
-    mechs = [m for m in (fsig, dsig) if m]
-    if not mechs:
-        return None
-    scratch = Case()
+
+    def attempt(free_perm):
+        sc = Case()
+        denote.compare_parameters(td, ird, sc, skip_block_fix=skip_fix)
+        di = None if kw.get("skip_events") else denote.dose_info_from_records(td, recs)
+        j = denote.compare_dynamic(td, ird, recs, rng, K, sc, dose_info=di, free_perm=free_perm, **kw)
+        return j, sc
+
     try:
-        denote.compare_parameters(td, ird, scratch)
-        j = denote.compare_dynamic(td, ird, recs, rng, K, scratch,
-                                   dose_info=None if dsig else denote.dose_info_from_records(td, recs),
-                                   f_from_ir=bool(fsig), skip_events=bool(dsig))
+        j, sc = attempt(False)
+        if j:
+            if mechs:
+                return mechs[0]
+            if td.eta_name_env:
+                return "C02/raw-eta-index-stale-after-reorder"
+            if td.err_amount_names:
+                return "C02/amount-index-canonical-vs-model-record"
+            return None
     except denote.Mismatch:
-        return None
-    return mechs[0] if j else None
+        pass
+    # relabelling: the code is the model with compartment names attached to other equations
+    try:
+        kw2 = dict(kw)
+        kw["f_from_ir"] = True
+        kw["skip_events"] = True
+        j, sc = attempt(True)
+        perms = getattr(sc, "last_perms", None) or []
+        if j and perms and all(any(td.names[i] != nm for i, nm in p.items()) for p in perms):
+            return "C02/model-record-order-vs-des"
+    except denote.Mismatch:
+        pass
+    return None
+
+
+def _code_of(td):
+    return "\n".join(c for n, c in td.rm.records if n in ("PK", "ERROR", "PRED", "DES"))
+
+
+def _error_reads_amounts(td):
+    import re
+
+    return any(re.search(r"\bA\(\d+\)", c) for n, c in td.rm.records if n == "ERROR")
 
 
 def run_case(rng, idx, tier):
@@ -231,6 +345,10 @@ def run_case(rng, idx, tier):
             starts = histories.start_models()
             sname = rng.choice(sorted(starts))
             model = starts[sname]
+            # the corpus start models are shared by all cases of a worker: give each case its own DataFrame so that
+            # an in-place dataset mutation (judged by C06) cannot leak from one case into the next
+            if model.dataset is not None:
+                model = model.replace(dataset=model.dataset.copy())
         else:
             model, gm = histories.gen_start_model(rng, wd)
             if model is None:
